@@ -63,13 +63,41 @@ func validateJSONPatches(patches []byte) error {
 			return fmt.Errorf("%s: invalid path", patch.JSONPatch)
 		}
 
-		if strings.HasPrefix(path, "/"+document.ServiceProperty) {
-			return fmt.Errorf("%s: cannot modify services", patch.JSONPatch)
+		if err := validateJSONPointer(path); err != nil {
+			return err
 		}
 
-		if strings.HasPrefix(path, "/"+document.PublicKeyProperty) {
-			return fmt.Errorf("%s: cannot modify public keys", patch.JSONPatch)
+		// move and copy name a second location in 'from'
+		fromMsg, ok := p["from"]
+		if ok && fromMsg != nil {
+			var from string
+			if err := json.Unmarshal(*fromMsg, &from); err != nil {
+				return fmt.Errorf("%s: invalid from", patch.JSONPatch)
+			}
+
+			if err := validateJSONPointer(from); err != nil {
+				return err
+			}
 		}
+	}
+
+	return nil
+}
+
+// validateJSONPointer makes sure that the pointer does not address services or public keys.
+// A non-empty JSON pointer has to start with '/' (RFC 6901): the patch library resolves a pointer
+// by dropping everything before the first '/', so 'x/service' would address the services.
+func validateJSONPointer(pointer string) error {
+	if pointer != "" && !strings.HasPrefix(pointer, "/") {
+		return fmt.Errorf("%s: pointer '%s' must start with '/'", patch.JSONPatch, pointer)
+	}
+
+	if strings.HasPrefix(pointer, "/"+document.ServiceProperty) {
+		return fmt.Errorf("%s: cannot modify services", patch.JSONPatch)
+	}
+
+	if strings.HasPrefix(pointer, "/"+document.PublicKeyProperty) {
+		return fmt.Errorf("%s: cannot modify public keys", patch.JSONPatch)
 	}
 
 	return nil
